@@ -253,6 +253,16 @@ def pools():
         ["wB", "rA", "wA", "rB"], ["wA", "wB", "rA", "rB", "wA"], ["rA", "rB", "wA", "wB"], ["wB", "rA", "rA", "wA"],
         ["wA/f=hB", "wB", "wA/f=nB", "rA", "wB/f=nA"], ["wB/r=rR0", "rA/r=rR0", "wA/r=wR0", "rB/r=rR1"],
     ]
+    # identifier-only and identifier-carrying tasks claim nothing
+    P["PI"] = [["rA", "id,rA", "id,rA"], ["wB", "id"], ["rA,id", "rA,id"], ["id", "id", "wA"], ["wA", "id,rB", "id,rA"]]
+    # the same component as an optional view in both the iterator views and the entry views
+    P["PE"] = [["rA", "oA/e=oA", "rA"], ["oA/e=oA", "rA"], ["rA/e=rA", "rA"], ["oB/e=oB", "oB/e=oB", "wA"], ["rA", "rB/e=rA", "rA"],
+               ["oA/e=oA", "wA"], ["wB", "oA/e=oA", "wA"], ["pA/e=rB", "rB"], ["rB/e=pA", "oA"]]
+    # all ordered pairs over a richer kind set (views, entry-only tasks, resource-only tasks)
+    kx = ["rA", "wA", "oA", "pA", "rB", "wB", "oB", "pB", "-/e=rA", "-/e=wA", "-/e=oA", "-/e=pA", "-/r=rR0", "-/r=wR0"]
+    P["PX1"] = [[a, b] for a in kx for b in kx]
+    P["PX2"] = [[x, y, z] for x in ["wB", "rB"] for y in ["rA", "-/e=rA", "oA/e=oA"] for z in ["wA", "-/e=wA", "pA"]]
+    P["PX3"] = [[a, b] for a in ["rA/e=rA", "oA/e=oA", "rB/e=wA", "wB/e=rA", "wA/e=rB"] for b in ["rA", "wA"]] + [[b, a] for a in ["rA/e=rA", "oA/e=oA", "rB/e=wA", "wB/e=rA", "wA/e=rB"] for b in ["rA", "wA"]]
     P["PC"] = [
         ["wC", "rA", "wA"], ["wB,rC", "rA", "wA,wC"], ["wC/f=hA", "wC/f=nA", "rC"], ["wB", "wC", "rA", "wA"],
     ]
@@ -274,6 +284,7 @@ def main():
     for p in ("P3", "P4", "P5", "P6"):
         quick += [(p, s) for s in P[p][:3]]
     quick += [("P7", P["P7"][0]), ("PC", P["PC"][0])]
+    quick += [("PI", s) for s in P["PI"][:3]] + [("PE", s) for s in P["PE"][:3]]
     qset = {tuple(s) for _, s in quick}
     extra = []
     for p, lst in P.items():
@@ -311,7 +322,7 @@ def main():
             meta[key].append({"bin": fn, "schedules": [{"name": d, "pool": p, "tasks": len(d.split(" | "))} for n, d, p in names]})
 
     shard(quick, 16, "sq", "quick")
-    shard(extra, 32, "st", "thorough_extra")
+    shard(extra, 64, "st", "thorough_extra")
     for f in os.listdir(OUT):
         if (f.startswith("sq_") or f.startswith("st_")) and f not in written:
             os.remove(os.path.join(OUT, f))
